@@ -96,6 +96,12 @@ def run(tier):
     rng2.shuffle(files)
     for sig, rep in cli.check_cli(check, wp, files, "7.4", [["-pb"]], procs_list=(1, 16) if tier == "quick" else (1, 2, 4, 16)):
         check.violation(sig, rep)
+    # the obligation LRValues.tla puts on grammar actions (every empty / error production whose value is read assigns $$): a stale
+    # value there puts a node of an EARLIER construct into the tree (foreign text, a node reachable twice, PHP 5 != PHP 7)
+    from . import yaccobl
+    for fam_ in ("7", "5"):
+        for sig_, rep_ in yaccobl.check_family(check, fam_):
+            check.violation(sig_, rep_)
     check.cov["traces_validated_against_impl"] = check.cov["evaluations"]
     check.assumptions += ["identity oracle: applies whenever zero errors are reported", "Syntax.tla / lexicon spellings define the input space"]
     return check.finish({"rule": "SyntaxGen derivations x %d layouts x versions; scaled programs (>1024 tokens); error-free Lexer.tla cases; corpus" % len(layouts)})
